@@ -587,7 +587,7 @@ def new_ezsp(device_config):
     return ezsp.EZSP(device_config)
 
 
-@contract("contracts.ezsp.new_ezsp", props=["C10", "C17", "C09"])
+@contract("contracts.ezsp.new_ezsp", props=["C10", "C09"])
 def _(c):
     c.arg("device_config", T.opaque)
     c.ensures(
